@@ -266,8 +266,9 @@ def _walk_v1(b, n, rom, sec, log, has, stop, region, w28, shift, tz, ks):
         segs = [[cb_end, cb_end + 56], [56, 64], [64 + shift, c], [cb_end + 72, sig_at]]
         iv = b[cb_end + 56:cb_end + 72]
         uk = sec.get("userKey")
-        key_name = "userKey" if ks else "AES-ECB(masterKey, 01 0^15 02 0^15)"
-        key = uk if ks else aes_ecb(uk, bytes([1] + [0] * 15 + [2] + [0] * 15))
+        from_store = ks or bool(rom.get("ksdev"))          # key store in the file, or provisioned on the device earlier
+        key_name = "userKey" if from_store else "AES-ECB(masterKey, 01 0^15 02 0^15)"
+        key = uk if from_store else aes_ecb(uk, bytes([1] + [0] * 15 + [2] + [0] * 15))
         ct = b"".join(b[a:z] for a, z in segs)
         plain = aes_ctr(key, iv, ct)
         exp = sec.get("plain")
